@@ -19,7 +19,7 @@ ASSUMPTIONS = ["thread interleavings are sampled (yield injection + repetition),
                "the strict peer is the responder double of vf/noisepeer.py (dissononce cipher states, counters only move forward)",
                "besides the probe-level runs, 24 (quick) / 960 (thorough) runs, with thread switches injected inside the dispatchers, go through the library's real socket and asyncore dispatchers over loopback TCP",
                "senders start after the handshake completed, as applications do (the handshake thread's own writes are covered by C04)"]
-REQUIRED = ["real_big_cases", "real_big_ok", "real_big:socket", "real_big:asyncore", "real_backlog_cases", "real_backlog_ok", "real_backlog:local-disconnect", "real_backlog:peer-reset", "runs", "stanzas_sent", "stanzas_decrypted", "interleaved_runs", "yields_injected", "ping_thread_runs", "entry:top",
+REQUIRED = ["core_stack_runs", "core_stack_ok", "real_big_cases", "real_big_ok", "real_big:socket", "real_big:asyncore", "real_backlog_cases", "real_backlog_ok", "real_backlog:local-disconnect", "real_backlog:peer-reset", "runs", "stanzas_sent", "stanzas_decrypted", "interleaved_runs", "yields_injected", "ping_thread_runs", "entry:top",
             "entry:sendIq", "entry:below-group", "early_sender_runs", "refused_during_handshake", "stalled_write_runs", "stalled_write_ok", "s2c_flood_runs", "s2c_flood_frames", "real_runs", "real_ok", "wire_bytes_equal", "real:socket", "real:asyncore"]
 TIMEOUT = {"quick": 400, "thorough": 3600}
 
@@ -720,6 +720,107 @@ def real_big_stanza_case(acc, seed, tag, dispatcher_name, prop="C11"):
         srv.stop()
 
 
+def core_stack_run(acc, seed, tag):
+    """A stack assembled from the core layers alone (network stand-in, framing, Noise, coder: no logger layer, no protocol
+    layers), the way an application does that speaks stanzas itself: several threads call stack.send() at once, some writes are
+    slow. Every stanza must arrive exactly once, whole, in each thread's order."""
+    from vf import tstack, noisepeer, refcodec, probes
+    from yowsup.stacks import YowStack
+    from yowsup.layers.noise.layer import YowNoiseLayer
+    from yowsup.layers.noise.layer_noise_segments import YowNoiseSegmentsLayer
+    from yowsup.layers.coder import YowCoderLayer
+    r = gen.rng(seed, ID, tag)
+    w = {"tag": tag, "kind": "core-stack"}
+    srv = noisepeer.NoiseServer()
+    prof = tstack.make_profile("c11c_%s" % tag.replace("/", "_"), server_static=srv.static_public)
+    T = tstack.Transport.__new__(tstack.Transport)
+    T.wire = tstack.Wire()
+    T.stack = YowStack((T.wire, YowNoiseSegmentsLayer, YowNoiseLayer, YowCoderLayer), reversed=False, props={"profile": prof})
+    T.noise = T.stack.getLayer(2)
+    T.profile, T.server, T.net, T.net_stack = prof, None, None, None
+    T.attach(srv)
+    T.auth()
+    if not T.wait(lambda: len(srv.out) > 0, 20):
+        acc.inconc("%s: no client hello" % tag)
+        return
+    T.deliver(srv.take_out())
+    if not T.wait(lambda: srv.state == "transport" and T.noise._wa_noiseprotocol.state == "transport", 20) or T.net_sync(20) != "ok":
+        acc.inconc("%s: handshake did not complete (%s)" % (tag, srv.errors))
+        return
+    acc.count("core_stack_runs")
+    slow = random.Random(r.randrange(1 << 30))
+    slock = threading.Lock()
+
+    def after_feed(b):
+        with slock:
+            x = slow.random()
+        if x < 0.15:
+            time.sleep(0.002)      # a write that takes a moment: other senders queue up behind it meanwhile
+    T.wire.after_feed = after_feed
+    nthreads, per = r.choice([3, 4]), r.choice([15, 30])
+    errors = []
+
+    def sender(k, rr):
+        for i in range(per):
+            try:
+                T.stack.send(payload_node(rr, "c%d-%d" % (k, i)))
+            except Exception as e:  # noqa
+                errors.append((type(e).__name__, str(e)[:200]))
+                return
+    ths = [threading.Thread(target=sender, args=(k, random.Random(r.randrange(1 << 30))), name="verif-core-sender-%d" % k) for k in range(nthreads)]
+    old_sw = sys.getswitchinterval()
+    sys.setswitchinterval(r.choice([0.005, 0.00001]))
+    yp = r.choice([0.0, 0.05, 0.2])
+    yi = inject.YieldInjector(random.Random(r.randrange(1 << 30)), YIELD_FILES + ("yowsup/layers/coder/layer.py",), p=yp) if yp else None
+    try:
+        if yi:
+            yi.__enter__()
+        for t in ths:
+            t.daemon = True
+            t.start()
+        for t in ths:
+            t.join(60)
+    finally:
+        if yi:
+            yi.__exit__()
+            acc.count("core_stack_yields", yi.yields)
+        sys.setswitchinterval(old_sw)
+        T.wire.after_feed = None
+    if any(t.is_alive() for t in ths):
+        stt = probes.thread_states(ths)
+        acc.violation("core-stack:sender-stuck", "a sender into the core-only stack did not return: %s" % {n: [list(f[:3]) for f in s_[:5]] for n, s_ in stt.items()}, w)
+        T.close()
+        return
+    T.close()
+    if errors:
+        acc.violation("core-stack:send-raises:%s" % errors[0][0], "stack.send raised %s: %s" % errors[0], w)
+        return
+    if srv.state == "error":
+        acc.violation("core-stack:stream-corrupt", "the peer cannot parse/decrypt the stream in counter order: %s" % srv.errors, w)
+        return
+    got = []
+    for p_ in srv.received:
+        try:
+            got.append(refcodec.decode(p_)[1].get("id"))
+        except refcodec.FormatError as e:
+            acc.violation("core-stack:frame-invalid", "a decrypted frame is not a valid stanza: %s" % e, w)
+            return
+    want = ["c%d-%d" % (k, i) for k in range(nthreads) for i in range(per)]
+    bad_ = [i for i in want if got.count(i) != 1]
+    if bad_:
+        acc.violation("core-stack:exactly-once:%s" % ("dup" if any(got.count(i) > 1 for i in bad_) else "lost"), "threads calling stack.send() on a core-only stack: stanzas %s were transmitted %s times"
+                      % (bad_[:4], [got.count(i) for i in bad_[:4]]), w)
+        return
+    for k in range(nthreads):
+        seq = [int(i.split("-")[1]) for i in got if i.startswith("c%d-" % k)]
+        if seq != sorted(seq):
+            acc.violation("core-stack:order", "thread %d's stanzas arrived as %s" % (k, seq[:12]), w)
+            return
+    acc.count("core_stack_ok")
+    acc.count("core_stack_stanzas", len(want))
+    acc.case(["core", tag], nontrivial=True)
+
+
 def make_desc(r):
     k = r.choice([2, 3, 4])
     entries = [r.choice(["top", "sendIq", "below-group"]) for _ in range(k)]
@@ -736,6 +837,8 @@ def shards(tier, seed, nworkers):
             specs.append({"kind": "real", "dispatcher": dname, "rep": k, "n": 12 if q else 60})
     for k in range(1 if q else 8):
         specs.append({"kind": "stalled", "rep": k})
+    for k in range(2 if q else nworkers):
+        specs.append({"kind": "core-stack", "rep": k, "n": 8 if q else 150})
     for dname in ("socket", "asyncore"):
         for k in range(1 if q else 6):
             specs.append({"kind": "real-backlog", "dispatcher": dname, "rep": k, "n": 3 if q else 10})
@@ -750,6 +853,11 @@ def run(spec, acc):
     if spec["kind"] == "stalled":
         stalled_write_run(acc, spec["seed"], "stalled/%d" % spec["rep"])
         acc.sample({"stalled_write": "sender stuck 6.5 s between header and payload while the keep-alive comes due"})
+        return
+    if spec["kind"] == "core-stack":
+        for i in range(spec["n"]):
+            core_stack_run(acc, spec["seed"], "core/%d/%d" % (spec["rep"], i))
+        acc.sample({"core_stack": "3-4 threads call stack.send() on a stack of framing, Noise and coder layers only; 15% of the writes take 2 ms"})
         return
     if spec["kind"] == "real-big":
         for i in range(spec["n"]):
@@ -782,6 +890,10 @@ def replay(spec, acc):
     from vf import env
     env.shim_thirdparty()
     w = spec["witness"]
+    if w.get("kind") == "core-stack":
+        for _ in range(5):
+            core_stack_run(acc, spec["seed"], w["tag"])
+        return
     if w.get("kind") == "big-stanza":
         return real_big_stanza_case(acc, spec["seed"], w["tag"], w["dispatcher"])
     if w.get("kind") == "backlog-reconnect":
